@@ -102,6 +102,17 @@ func num(n int) []byte { return Push(interp.EncodeNum(big.NewInt(int64(n))), 0) 
 // (plain, executed or skipped inside a conditional, at any instruction
 // position), per-slot signature classes and hash types, flags.
 func SigScripts(t *rapid.T) SigProgram {
+	o := gen.TxOpts{MinIn: 1, MaxIn: 4, MinOut: 0, MaxOut: 4, MaxScript: 40, ScriptEdges: []int{0, 1, 25}}
+	tx := gen.Tx(t, o)
+	idx := rapid.IntRange(0, len(tx.In)-1).Draw(t, "idx")
+	return SigScriptsFor(t, tx, idx)
+}
+
+// SigScriptsFor draws a signature program for input idx of the given transaction (whose other
+// inputs and outputs are what the signatures commit to). The returned program's Tx is a copy of tx
+// with the spent output of input idx recorded; the caller installs the unlocking script.
+func SigScriptsFor(t *rapid.T, tx ref.Tx, idx int) SigProgram {
+	tx.In = append([]ref.In{}, tx.In...)
 	// flags
 	var flags interp.Flags
 	for i, f := range FlagPoolSig {
@@ -121,10 +132,6 @@ func SigScripts(t *rapid.T) SigProgram {
 	}
 	forkFlag := flags.Has(interp.FlagForkID)
 
-	// transaction
-	o := gen.TxOpts{MinIn: 1, MaxIn: 4, MinOut: 0, MaxOut: 4, MaxScript: 40, ScriptEdges: []int{0, 1, 25}}
-	tx := gen.Tx(t, o)
-	idx := rapid.IntRange(0, len(tx.In)-1).Draw(t, "idx")
 	amount := gen.U64(t, "amount")
 
 	// keys
